@@ -9,7 +9,7 @@
 #             changes the verdict about /repo; it is recorded in the evidence and printed as SELF-CHECK lines.
 cd "$(dirname "$0")"
 prop="$1"; tier="${2:-${VERIF_TIER:-quick}}"
-if [ ! -x bin/amverif ] || [ -n "$(find checker -newer bin/amverif -name '*.go' 2>/dev/null | head -1)" ]; then
+if [ ! -x bin/amverif ] || [ -n "$(find checker -newer bin/amverif \( -name '*.go' -o -name '*.txt' \) 2>/dev/null | head -1)" ]; then
   ./setup.sh >/dev/null || { echo "run.sh: cannot build the checker" >&2; exit 2; }
 fi
 if [ "$tier" != "thorough" ]; then
